@@ -95,6 +95,7 @@ def jobs(tier, seed):
         "outline": [F([O(1, [(1, []), (1, [])], tags=["p<x>"]), S(1)])],
         "rule-outline": [F([R([O(1, [(2, [])], tags=["p<x>"])])])],
         "outline-untagged": [F([O(1, [(1, []), (1, [])], noptags=True)])],
+        "stepless": [F([S(0), S(1), R([S(0)])])],       # scenarios without any step (own or background)
     }
     if tier == "thorough":
         shapes.update({
@@ -109,7 +110,7 @@ def jobs(tier, seed):
         for i, ex in enumerate(exprs):
             text, tree, proto = ex[:3]
             names = ex[3] if len(ex) > 3 else ["a", "b", "ab"]
-            if sname == "outline-untagged" and tier == "quick" and i not in (0, 1, 3, 6, 11, 13):
+            if sname in ("outline-untagged", "stepless") and tier == "quick" and i not in (0, 1, 3, 6, 11, 13):
                 continue
             js.append(Job("sel.%s.e%02d" % (sname, i), "props.c09:h_select",
                           {"shapes": sh, "opts": {"ptags": names, "tag_universe": names,
